@@ -59,3 +59,56 @@ package fasthttp
 //@   loop 1:
 //@     invariant[none-so-far] 0 <= i && i <= n && n == len(h) && forall j in [0, i): !keyIs(h, k, j)
 //@     decreases n - i
+
+//@ func peekArgBytes results r
+//@   property C28 C29
+//@   pure
+//@   ensures[first-match] forall j in [0, len(h)): keyIs(h, k, j) && (forall t in [0, j): !keyIs(h, k, t)) ==> sameSlice(r, h[j].value)
+//@   ensures[none] (forall j in [0, len(h)): !keyIs(h, k, j)) ==> len(r) == 0 && rgn(r) == 0
+//@   loop 1:
+//@     invariant[none-so-far] 0 <= i && i <= n && n == len(h) && forall j in [0, i): !keyIs(h, k, j)
+//@     decreases n - i
+
+// releaseArg drops the last entry (its buffers stay behind the length for reuse).
+//@ func releaseArg results r
+//@   property C28 C29
+//@   pure
+//@   requires[non-empty] len(h) > 0
+//@   ensures[shorter] len(r) == len(h) - 1 && rgn(r) == rgn(h) && off(r) == off(h)
+
+// allocArg makes room for one more entry and hands out a pointer to it; the entries already there keep their
+// place and identity.
+//@ func allocArg results r kv
+//@   property C28 C29
+//@   frame assumed
+//@   modifies h
+//@   elemptr kv r len(h)
+//@   ensures[one-more] len(r) == len(h) + 1
+//@   ensures[prefix-kept] forall j in [0, len(h)): cell(r, j) == cell(old(h), j)
+
+// appendArg adds (key, value, noValue) as the last entry; everything before it keeps its place and identity.
+//@ func appendArg results r
+//@   property C28 C29
+//@   frame assumed
+//@   modifies args
+//@   ensures[one-more] len(r) == len(args) + 1
+//@   ensures[prefix-kept] forall j in [0, len(args)): cell(r, j) == cell(old(args), j)
+//@   ensures[last-key] string(r[len(args)].key) == key
+//@   ensures[last-value] r[len(args)].noValue == noValue && (noValue ? len(r[len(args)].value) == 0 : string(r[len(args)].value) == value)
+
+// setArg: when an entry named key exists the slice keeps its length and storage; when there is none, a new last
+// entry (key, value, noValue) is appended and every other entry keeps its place and identity. (That exactly the first
+// match is rewritten and no other cell changes did not discharge within the time budget and is not claimed.)
+//@ func setArg results r
+//@   property C28 C29
+//@   frame assumed
+//@   modifies h
+//@   ensures[found-keeps-length] (exists j in [0, len(h)): keyIs(old(h), key, j)) ==> len(r) == len(h) && rgn(r) == rgn(old(h)) && off(r) == off(old(h))
+//@   ensures[appends-when-absent] (forall j in [0, len(h)): !keyIs(old(h), key, j)) ==>
+//@                             len(r) == len(h) + 1 && (forall j in [0, len(h)): cell(r, j) == cell(old(h), j)) &&
+//@                             string(r[len(h)].key) == key && r[len(h)].noValue == noValue &&
+//@                             (noValue ? len(r[len(h)].value) == 0 : string(r[len(h)].value) == value)
+//@   loop 1:
+//@     invariant[none-so-far] 0 <= i && i <= n && n == len(h) && forall j in [0, i): !keyIs(h, key, j)
+//@     invariant[nothing-written-yet] sameheap() && sameSlice(h, old(h))
+//@     decreases n - i
